@@ -4,6 +4,7 @@ import (
 	"bytes"
 	"fmt"
 	"github.com/tink-crypto/tink-go/v2/insecuresecretdataaccess"
+	"strings"
 	"testing"
 
 	"pgregory.net/rapid"
@@ -615,7 +616,11 @@ func TestTinkAPIAllSets(t *testing.T) {
 		// reference - once per set (TestScheme reaches the 's' sets only a few times per run)
 		refRaw := tk.Must(p.r.Sign(msg, []byte{}, rsk, nil))
 		{
-			dsk, err := p.t.Params().DecodeSecretKey(append([]byte{}, rsk...))
+			// the encoded key sits in a buffer with spare capacity behind it for every other set (a hex-
+			// or base64-decoded key usually does): what the decoded key object does must not depend on it
+			skBuf := make([]byte, len(rsk), len(rsk)+64*(i%2))
+			copy(skBuf, rsk)
+			dsk, err := p.t.Params().DecodeSecretKey(skBuf)
 			if err != nil {
 				t.Fatalf("%s: DecodeSecretKey(%x): %v", p.name, rsk, err)
 			}
@@ -635,6 +640,28 @@ func TestTinkAPIAllSets(t *testing.T) {
 				t.Fatalf("%s sk=%x M=%x: Verify rejects the deterministic signature: %v", p.name, rsk, msg, err)
 			}
 			evid.Add("deterministic_signatures_compared", 1)
+			if strings.HasSuffix(p.name, "f") {
+				// a key object signs more than once: the SECOND deterministic signature of the same decoded
+				// key (fast sets only - an 's' signature costs seconds), byte for byte, and the caller's
+				// encoded key is still what it was (added after seeded change C16f: the first signature
+				// overwrote PK.root through an append into the key buffer, the second one was invalid)
+				msg2 := append(append([]byte{}, msg...), 2)
+				det2, err := dsk.SignDeterministic(append([]byte{}, msg2...), []byte{})
+				ref2 := tk.Must(p.r.Sign(msg2, []byte{}, rsk, nil))
+				if err != nil || !bytes.Equal(det2, ref2) {
+					t.Fatalf("%s sk=%x: the SECOND SignDeterministic of one decoded key object (M=%x) differs from the reference (err %v; first difference at byte %d)", p.name, rsk, msg2, err, firstDiff(det2, ref2))
+				}
+				if err := dpk.Verify(msg2, det2, []byte{}); err != nil {
+					t.Fatalf("%s sk=%x M=%x: Verify rejects the second deterministic signature: %v", p.name, rsk, msg2, err)
+				}
+				if !bytes.Equal(skBuf, rsk) {
+					t.Fatalf("%s: signing changed the caller's encoded secret key: %x, was %x", p.name, skBuf, rsk)
+				}
+				if got := dsk.Encode(); !bytes.Equal(got, rsk) {
+					t.Fatalf("%s: after two signatures the key object encodes to %x, was decoded from %x", p.name, got, rsk)
+				}
+				evid.Add("second_signatures_compared", 1)
+			}
 			evid.Case("api-all-sets-deterministic/"+p.name+"/"+pat.String(), true, evid.NewH().S(p.name).B(rsk).B(msg).Sum(), func() any {
 				return fmt.Sprintf("%s sk=%x M=%x idx_tree=%#x idx_leaf=%d", p.name, rsk, msg, idxTree, idxLeaf)
 			})
@@ -722,6 +749,20 @@ func TestTinkAPIAllSets(t *testing.T) {
 			}
 			if err := verifier.Verify(sig, append(append([]byte{}, msg...), 1)); err == nil {
 				t.Fatalf("%s: signature accepted for a different message", cs)
+			}
+			if strings.HasSuffix(p.name, "f") {
+				// second signature from the same signer object
+				msg2 := append(append([]byte{}, msg...), 3)
+				sig2, err := signer.Sign(msg2)
+				if err != nil {
+					t.Fatalf("%s: second Sign on the same signer: %v", cs, err)
+				}
+				if !bytes.HasPrefix(sig2, prefix) || !p.r.Verify(msg2, sig2[len(prefix):], []byte{}, rpk) {
+					t.Fatalf("%s: the SECOND signature of one signer object (M=%x) is not valid under the independent implementation", cs, msg2)
+				}
+				if err := verifier.Verify(sig2, msg2); err != nil {
+					t.Fatalf("%s: Tink verifier rejects the signer's second signature: %v", cs, err)
+				}
 			}
 			evid.Case("api-all-sets/"+p.name+"/"+variant, true, evid.NewH().S(p.name).S(variant).B(rsk).Sum(), func() any { return cs[:min(len(cs), 200)] })
 		}
